@@ -52,6 +52,7 @@ static long sum40(void *p, long a1, long a2, long a3, long a4, long a5, long a6,
          a30 + a31 + a32 + a33 + a34 + a35 + a36 + a37 + 38 * a38 + 39 * a39; }
 static long many7(long a, long b, long c, long d, long e, long f, long g, long double x, double y, struct S40 s) { return a + g + s.a[4] + (long)x + (long)y; }
 static long many9(long a, long b, long c, long d, long e, long f, long g, long h, long i, long double x, struct SL s, long double z) { return a + i + (long)x + s.b + (long)z; }
+static _Thread_local long tl1 = 3; _Thread_local long double tl2 = 1.5L; static _Thread_local struct S16 tl3 = {3, 4.5};
 static void chk(long id, long double ld, double d, long i) { OUT(id, &ld, 10); OUT(id, &d, 8); OUTV(id, i); }
 '''
 
@@ -90,6 +91,9 @@ def forms_for(cn, t):
     F.append(('call-many-args', 'many(1, 2, 3, 4, 5, 6, 7, 8, 9.5L, 10.5, ret_S40()); k = many(1, 2, 3, 4, 5, 6, 7, 8, 1.0L, 2.0, s40) > 0;'))
     # a 16-byte-aligned stack argument behind an odd number of stack eightbytes needs 8 bytes of padding that must be released after the call
     F.append(('call-padded-stack-args', 'many7(1, 2, 3, 4, 5, 6, 7, 9.5L, 10.5, ret_S40()); k = (many7(1, 2, 3, 4, 5, 6, 7, 1.5L, 2.0, s40) + many9(1, 2, 3, 4, 5, 6, 7, 8, 9, 2.5L, ret_SL(), 3.5L)) == 41;'))
+    # thread-local objects as operands while other operands are pending on the stack (with -fPIC every access is a call to __tls_get_addr)
+    F.append(('tls-operands', 'k = 1 + (tl1 > 0) * 2 - 2; k = (k + tl1) < (tl1 + 5) ? 1 : 2; tl1 = 3 + (tl1 - tl1); tl2 = tl2 * 1 + 0 * tl1; tl3.a = tl3.a + 0 * tl1; '
+              'k = many(tl1, 2, tl1, 4, tl1, 6, 7, tl1, tl2, tl3.b, s40) > 0; y = x; k = 1;'))
     F.append(('alloca-mixed', 'if (i < 40) { char *q = alloca(24); q[0] = 1; x; ret_%s(); gacc = q[0]; }' % t))
     # alloca() evaluated while 300 bytes of struct argument / 34 stack arguments are already pushed: the pending temporaries must move with the stack pointer
     F.append(('alloca-under-pending-args', 'if (i < 40) { gacc = take_big(alloca(64), s300); gacc += sum40(alloca(32), %s); }' % ', '.join(str(j) for j in range(1, 40))))
@@ -136,8 +140,10 @@ def run_tu(a):
     p = os.path.join(work, 'tu%d_%d.c' % (idx, n))
     open(p, 'w').write(src.replace('REPEAT', str(n)))
     res = {}
+    # every third unit is built as position-independent code (GOT / general-dynamic TLS access sequences) with 9 iterations
+    pic = ['-fPIC'] if (n == 9 and idx % 3 == 0) else []
     for kind in (('chibicc', 'gcc') if n != 9 else ('chibicc',)):
-        res[kind] = core.build_and_run(kind, cc, p, work, 'tu%d_%d' % (idx, n), timeout=300, probes=True, run_env={'VERIF_PROBE_REPORT': '1'})
+        res[kind] = core.build_and_run(kind, cc, p, work, 'tu%d_%d' % (idx, n), timeout=300, probes=True, run_env={'VERIF_PROBE_REPORT': '1'}, extra_cflags=pic)
     os.unlink(p)
     return idx, n, res
 
